@@ -404,6 +404,9 @@ func (s *Set) c04(w *simapi.Write, v *simapi.View) {
 							restarted = true
 						}
 					}
+					if s.publishedDuringCleanup {
+						how = "revision-published-during-cleanup"
+					}
 					if restarted && s.isRealPartitionStyle() && tot[s.stableImg] == 0 {
 						// the user reverted / superseded a partition-style release after every pod had been updated: no pod of
 						// the stable revision is left, the Rollout restarts at step 1 and pins the stable Service to it
